@@ -10,6 +10,7 @@ CONSTANTS
   MaxK = 2
   SteadyT = 5
   SolveOK <- MC_SolveQuick
+  EditOK <- MC_EditNone
   AsFound_SubstitutesVarWithIC = TRUE
 INVARIANT TypeOK
 INVARIANT C03_Partition
